@@ -449,6 +449,54 @@ def pwv_oracle(line, out):
     return None
 
 
+# ---------------------------------------------------------------------------------- (b2) scripted draws for control RRT
+def gen_rrtplay(rng):
+    """adversarial hand-shaped draw scripts on dyadic lattices: exact distance ties between tree nodes (nearest must take
+    the first), ties between control candidates (best-of-k keeps the earlier), step counts 0 / below min / above max,
+    first step invalid, several (some invalid) start states, early goal hits in intermediate mode."""
+    kind = rng.choice(["point", "point", "uni", "dint"])
+    dt = rng.choice([0.25, 0.5])
+    mn = rng.choice([1, 1, 2, 3])
+    mx = mn + rng.choice([0, 2, 5])
+    if kind == "point":
+        sy = Sys("point", [0.0, 0.0], [8.0, 8.0], [-1.0, -1.0], [1.0, 1.0], dt, mn, mx)
+    elif kind == "uni":
+        sy = Sys("uni", [0.0, 0.0], [8.0, 8.0], [-1.0, -1.0], [1.0, 1.0], dt, mn, mx)
+    else:
+        sy = Sys("dint", [0.0, 0.0, -2.0, -2.0], [8.0, 8.0, 2.0, 2.0], [-1.0, -1.0], [1.0, 1.0], dt, mn, mx)
+    boxes = [([3.0, 5.0], [4.0, 6.0])] if rng.chance(1, 2) else []
+
+    def st(x, y):
+        if kind == "point":
+            return [float(x), float(y)]
+        if kind == "uni":
+            return [float(x), float(y), rng.choice([0.0, 0.5, -1.0, 3.0, -3.0])]
+        return [float(x), float(y), rng.choice([0.0, 0.5, -0.5]), rng.choice([0.0, 0.25])]
+    starts = [st(4, 4)]
+    if rng.chance(1, 2):
+        starts.append(st(2, 4))          # a second root: samples on x = 3 are equidistant from both
+    if rng.chance(1, 4):
+        starts.insert(rng.below(len(starts) + 1), st(3.5, 5.5) if boxes else st(9, 9))    # invalid start
+    goal = st(rng.choice([6, 7]), rng.choice([4, 7]))
+    pb = Problem(sy, boxes, starts, goal, rng.choice([0.5, 1.0]))
+    k = rng.choice([1, 2, 3])
+    inter = rng.below(2)
+    ctls = [(-1.0, 0.0), (1.0, 0.0), (0.0, 1.0), (0.0, -1.0), (1.0, 1.0), (0.0, 0.0), (0.5, -0.5), (1.0, -1.0)]
+    ev = []
+    for _ in range(rng.range(0, 30)):
+        if rng.chance(1, 6):
+            ev.append("G")
+        else:
+            ev += ["U"] + [B(x) for x in st(rng.range(0, 8), rng.range(0, 8))]
+        for j in range(k):
+            c = rng.choice(ctls)
+            n = rng.choice([0, 1, 1, 2, 2, 3, 4, 4, 6, 9])
+            pair = ["C", B(c[0]), B(c[1])], ["K", str(n)]
+            ev += (pair[0] + pair[1]) if j == 0 else (pair[1] + pair[0])      # the order the code draws them in
+    line = " ".join(["rrtplay"] + pb.toks() + ["inter=%d" % inter, "draws"] + ev)
+    return pb, inter, line
+
+
 # ---------------------------------------------------------------------------------- running
 def run_one(ck, hbin, line, env=None):
     out, rc, err = ck.run_bin(hbin, ["control", line], timeout=900, env=env)
@@ -687,6 +735,32 @@ def run(ck):
                 ck.log("control RRT lock-step disagreement (%s seed %d iters %d) at token %d" % (j[0], j[2], j[3], pos))
                 break
             ck.count("rrt-lockstep:identical-runs")
+
+    # ---------------- (b2) control RRT on hand-shaped draw scripts: real planner with scripted samplers vs the model
+    rs = ck.rng.fork("rrtplay")
+    plays2 = [gen_rrtplay(rs) for _ in range(400 if quick else 4000)]
+    lines2 = [x[2] for x in plays2] + ["rrtplay point 1", "rrtplay"]
+    impl, rc, err, model = ck.run_pair(hbin, DRIVER, ["control"] + lines2)
+    impl = impl or []
+    ck.traces_validated += 1
+    for (pb, inter, line), o in zip(plays2, impl):
+        ck.count("op:rrtplay")
+        if o in ("bad-op", "script-exhausted"):
+            ck.count("rrtplay:" + o)
+            continue
+        judge_plan(ck, hbin, "RRTi" if inter else "RRT", pb, 0, line.count(" U ") + line.count(" G"), line, [o], 0, "", "rrt-scripted", records)
+    dpos = ck.first_diff(impl, model)
+    if rc != 0 or dpos is not None:
+        ck.disagreements += 1
+        ln = lines2[dpos] if dpos is not None and dpos < len(lines2) else "<eof>"
+        ck.report({"engine": "control", "what": "control::RRT and its model disagree (scripted draws)"}, script=["control", ln],
+                  expected=(model[dpos][:3000] if dpos is not None and dpos < len(model) else None),
+                  observed=(impl[dpos][:3000] if dpos is not None and dpos < len(impl) else (err or "")[-2000:]),
+                  found_input=False, engine="control",
+                  obligation="correspondence control: control::RRT::solve with scripted samplers vs OmplModel.CRRT.solve (line %s)" % dpos)
+        ck.log("control RRT scripted-draws disagreement at line %s (rc=%s)" % (dpos, rc))
+    else:
+        ck.count("rrt-scripted:identical-runs", len(plays2))
 
     # ---------------- Lean spec replayOK + PathControl::check/interpolate on the implementation's paths
     rp = ck.rng.fork("paths")
